@@ -29,6 +29,18 @@ def build_ops(R):
             for fill in ("zfrp" if len(ph) < 100 else "zfr"):
                 ops.append("O 0 %s %d %d" % (fill, R.rng.randrange(16), R.rng.randrange(1 << 30))); meta.append(("setup", "obj", 0, 0))
                 ops.append(CS.crypt_op("r" if fill in "zf" else "rn", 0, ph, S.CANON[m])); meta.append((m, "first-call-on-filled-object", len(ph), len(S.CANON[m])))
+    # ... and the same request after the object held a LONGER result of another method / a failure token / nothing: `output` survives between
+    # calls (it is not part of the wiped scratch area) and a method that uses it as working space must not read what was there - canonical and
+    # non-canonical spellings of the cost field, whose printed form is shorter than what was parsed (seeded/C07g)
+    odd_spell = [b"$sha1$00100$saltsalt$", b"$sha1$0000024$saltsalt", b"$sha1$+24$saltsalt$", b"$sha1$24$saltsalt$", b"$md5,rounds=005$saltsalt$", b"$md5,rounds=5$saltsalt$",
+                 b"$5$rounds=001000$saltsalt", b"$6$rounds=+1000$saltsalt", b"$2b$04$abcdefghijklmnopqrstuu", b"_J9..salt", b"$1$saltsalt", b"$3$", b"ab"]
+    for st in odd_spell:
+        for ph in (b"pw", long_ph):
+            for pre in ("O 0 z 0 1", CS.crypt_op("r", 0, b"other", S.CANON["sha512crypt"]), CS.crypt_op("r", 0, b"other", S.CANON["yescrypt"]),
+                        CS.crypt_op("rn", 0, b"other", b"$1$bad:salt"), CS.crypt_op("st", 0, b"other", S.CANON["sha256crypt"])):
+                ops.append(pre); meta.append(("setup", "obj", 0, 0))
+                e = "st" if pre.startswith("C st") else R.rng.choice(["r", "rn"])
+                ops.append(CS.crypt_op(e, 0, ph, st)); meta.append((CS.method_of(st) or "generic", "after-longer-result", len(ph), len(st)))
     for h in range(nhist):
         n = R.rng.randrange(5, 61)
         nobj = R.rng.randrange(1, 4)
